@@ -53,6 +53,9 @@ def closed(mp):
 def operand_checks(c, k):
     c.check("operand A %d" % k)
     c.check("operand B %d" % k)
+    # the wider validity of C03's quantifier (empty interior rings allowed): gates the outcome judgement only
+    c.check("operandx A %d" % k)
+    c.check("operandx B %d" % k)
 
 
 def region_check(c, k, op, tol):
